@@ -71,11 +71,12 @@ theorem finalExponentiation_implemented (x y : F12) (hx : Red12 x) (hy : Red12 y
       Fp12.mul (Bn256.finalExponentiation x) (Bn256.finalExponentiation y) :=
   ⟨(finalExp_dec x hx).1, (finalExp_dec x hx).2, finalExp_concrete_mul x y hx hy⟩
 
-/-- **the implemented PairingCheck**: whenever the Miller values are reduced gfP12 values (every gfP operation
-returns reduced values — `gfP_is_prime_field` — but this is not carried through the 265-step Miller loop here:
-hypothesis), `pairingCheck` is true exactly when the product in F_p¹² of the decoded pairing values
-`optimalAte(qᵢ, pᵢ)` is one; pairs with an identity contribute one wherever they stand in the list -/
-theorem pairingCheck_implemented (ps : List (G1J × G2J)) (hm : ∀ pq ∈ ps, Red12 (miller pq.2 pq.1)) :
+/-- **the implemented PairingCheck, given reduced Miller values**: whenever the Miller values are reduced gfP12
+values (hypothesis `hm` HERE; it is discharged for all reduced input points in Props/C10Miller.lean, where the
+unconditional statement is `C10Miller.pairingCheck_implemented` — reducedness carried through the 265-step
+translated Miller loop by naturality), `pairingCheck` is true exactly when the product in F_p¹² of the decoded
+pairing values `optimalAte(qᵢ, pᵢ)` is one; pairs with an identity contribute one wherever they stand in the list -/
+theorem pairingCheck_given_reduced_miller (ps : List (G1J × G2J)) (hm : ∀ pq ∈ ps, Red12 (miller pq.2 pq.1)) :
     pairingCheck ps = true ↔ (ps.map fun pq => dec12 (optimalAte pq.2 pq.1)).prod = 1 :=
   pairingCheck_concrete ps hm
 
